@@ -38,6 +38,12 @@ def check(ctx):
             barrier.append(dict(c, objective='barrier', box='unit', lb=[0.0] * c['n_vars'], ub=[1.0] * c['n_vars'],
                                 n_agents=max(c['n_agents'], 6), n_iter=2, hyper={}))
     chosen = chosen + barrier
+    # … and one fixed swarm task with a hard constraint (+inf on half the box, so some particle starts infeasible whatever the
+    # seed), compared across processes after a task of the same shapes that leaves other numbers in freed memory
+    for kind_ in ('PSO', 'AIWPSO', 'RPSO'):
+        chosen.append(dict(kind=kind_, space='search', n_agents=12, n_vars=3, n_dims=1, n_iter=3, box='unit', lb=[0.0] * 3, ub=[1.0] * 3,
+                           objective='infpen', rettype='py', hyper={}, adv=0.0, hook='observer', store_best_only=False,
+                           seed=1234567 + ctx['seed'], xproc=True))
     # GP on several function sets, always compared across interpreter processes with different PYTHONHASHSEED
     # (anything ordered by a set/dict of strings differs between processes, never inside one)
     gps = [c for c in cfgs if c['kind'] == 'GP']
